@@ -826,7 +826,19 @@ func (x *extractor) factsAds() {
 		}
 		relay = strings.Join(parts, ";")
 		body := x.str(fd.Body)
-		tomb = strings.Contains(body, "serviceAdsWithdrawn") || strings.Contains(strings.ToLower(body), "tombstone")
+		// tombstones: an early return when the message is not newer than a remembered withdrawal; a cancel records its
+		// time, an advertisement forgets the withdrawal
+		test := ""
+		for _, st := range fd.Body.List {
+			if is, ok := st.(*ast.IfStmt); ok && is.Init != nil && strings.Contains(x.str(is.Init), "s.serviceAdsWithdrawn[si.NodeID][si.Service]") &&
+				strings.Contains(x.str(is.Body), "return nil") {
+				test = x.str(is.Cond)
+			}
+		}
+		records := strings.Contains(body, "w[si.Service] = si.Time")
+		forgets := strings.Contains(body, "delete(s.serviceAdsWithdrawn[si.NodeID], si.Service)")
+		tomb = test == "withdrawn && !si.Time.After(withdrawnAt)" && records && forgets
+		x.set("ads_tombstone_test", test)
 	}
 	x.set("ads_keep_test", keep)
 	x.set("ads_tombstones", tomb)
